@@ -129,14 +129,16 @@ end Codegen
 namespace Program
 
 /-- `linkProg`, stage 1: make sure the code ends with `End` -/
+def pushEndP (p : Program) : Program :=
+  let (l, r) := p.link.push .end
+  match r with
+  | .ok () => { p with link := l }
+  | .error e => { p with link := l, errors := p.errors ++ [e] }
+
 def ensureEnd (p : Program) : Program :=
   match p.link.ops.back? with
-    | some .end => p
-    | _ =>
-      let (l, r) := p.link.push .end
-      match r with
-      | .ok () => { p with link := l }
-      | .error e => { p with link := l, errors := p.errors ++ [e] }
+    | some .end => if p.link.hasLineAtEnd then pushEndP p else p
+    | _ => pushEndP p
 
 /-- stage 2: resolve the pending references -/
 def resolve (p : Program) : Program :=
@@ -153,14 +155,21 @@ def markDirect (p : Program) : Program :=
 
 theorem linkProg_eq (p : Program) : p.linkProg = markDirect (resolve (ensureEnd p)) := rfl
 
+theorem pushEndP_withDP (p : Program) (d : Nat) : pushEndP (p.withDP d) = (pushEndP p).withDP d := by
+  unfold pushEndP
+  rw [show (p.withDP d).link = p.link.withDP d from rfl, Link.push_withDP]
+  dsimp only
+  split <;> rfl
+
 theorem ensureEnd_withDP (p : Program) (d : Nat) : ensureEnd (p.withDP d) = (ensureEnd p).withDP d := by
   unfold ensureEnd
-  rw [show (p.withDP d).link.ops = p.link.ops from rfl]
+  rw [show (p.withDP d).link.ops = p.link.ops from rfl,
+    show (p.withDP d).link.hasLineAtEnd = p.link.hasLineAtEnd from rfl]
   split
-  · rfl
-  · rw [show (p.withDP d).link = p.link.withDP d from rfl, Link.push_withDP]
-    dsimp only
-    split <;> rfl
+  · split
+    · exact pushEndP_withDP p d
+    · rfl
+  · exact pushEndP_withDP p d
 
 theorem resolve_withDP (p : Program) (d : Nat) : resolve (p.withDP d) = (resolve p).withDP d := by
   unfold resolve
